@@ -77,6 +77,7 @@ impl Prop for P {
             rule: "call histories on ONE decoder object: each step is decompress/decompress_with_limit with input drawn from (valid streams, directive-carrying streams, mutants, random bytes; the unread rest of the previous input or any other offset), any u32 flag word (biased to the 6 defined bits plus undefined ones), output slice length from {0,1,2,3,5,8,12,100,255,256,257,1000,4096,32768,32769,65536}, out_pos in 0..=len+1, any budget; or init(); or replacing the decoder by a clone / rmp-serde / serde_json round trip. Also decompress_to_vec*_with_limit, decompress_slice_iter_to_slice and inflate() with arbitrary arguments. Release and debug-assertion builds. Oracle per call: returns (watchdog), no panic, consumed <= offered, written <= min(len-out_pos, budget), BadParam iff (ring mode and len not a power of two) or out_pos > len, then counts 0 and serialised decoder image unchanged; after Failed every usable-geometry call returns Failed/0 written until init(). Non-trivial = history with >= 2 calls where a suspended (NeedsMoreInput/HasMoreOutput) state was resumed with a different geometry or flag word; distinct by case fingerprint",
             assumptions: &["'prior decoder state reachable through the API' = reachable by decode calls, init(), clone and serialise/deserialise round trips of real decoder states (arbitrary forged serde images are not generated)"],
             dbg: true,
+            simd: false,
             exhaustive: None,
         }
     }
